@@ -873,6 +873,20 @@ impl Prioritize {
         // TODO: make this more efficient?
         while let Some(frame) = stream.pending_send.pop_front(buffer) {
             tracing::trace!(?frame, "dropping");
+
+            // A PUSH_PROMISE that is dropped here will never reach the peer:
+            // the promised stream can never be opened. Fail it, so that its
+            // handles are told instead of waiting for ever; nothing has to go
+            // on the wire for a stream the peer has not heard of.
+            if let Frame::PushPromise(ref pp) = frame {
+                if let Some(mut pushed) = stream.store_mut().find_mut(&pp.promised_id()) {
+                    pushed.is_pending_push = false;
+                    while pushed.pending_send.pop_front(buffer).is_some() {}
+                    pushed.buffered_send_data = 0;
+                    pushed.requested_send_capacity = 0;
+                    pushed.set_reset(Reason::CANCEL, Initiator::Library);
+                }
+            }
         }
 
         stream.buffered_send_data = 0;
